@@ -975,9 +975,24 @@ func init() {
 			}
 			objs = realSizes(objs, times)
 			refs := genE2ERefs(r, objs)
+			layout := []string{"loose", "loose", "packed", "gc", "bitmap", "bitmap", "alternates", "promisor"}[r.n(8)]
+			if cs := indicesOf(objs, 'c'); layout == "bitmap" && len(cs) > 0 && r.coin(2, 3) {
+				// make sure the bitmap layout has something to show: a commit on top of an existing one, named by a
+				// branch and by a lightweight tag (so that every reference rule but "only ROOTs" walks it); its parent
+				// goes into the bitmapped pack, the new commit stays outside
+				c := cs[r.n(len(cs))]
+				objs = append(objs, gObj{kind: 'c', tree: objs[c].tree, parents: []int{c}, pad: r.n(30)})
+				times = append(times, times[c]+int64(1+r.n(1000)))
+				if !hasDuplicateObjects(objs, times) {
+					objs = realSizes(objs, times)
+					refs = append(refs, fmt.Sprintf("refs/heads/zz-newest=%d", len(objs)-1), fmt.Sprintf("refs/tags/zz-newest=%d", len(objs)-1))
+					sort.Strings(refs)
+				} else {
+					objs, times = objs[:len(objs)-1], times[:len(times)-1]
+				}
+			}
 			args, roots := genSelection(r, objs, refs)
 			style := []string{"full", "full", "hash", "none"}[r.n(4)]
-			layout := []string{"loose", "loose", "packed", "gc", "bitmap", "bitmap", "alternates", "promisor"}[r.n(8)]
 			if r.coin(1, 40) {
 				// a ROOT that is not ONE revision although it expands to one line: `X^@` of a commit with exactly one
 				// parent, `X^!` of a root commit. The run must fail; if it is accepted, its descriptions are built from
